@@ -19,4 +19,10 @@ impl Operation {
     pub fn contains_capturing_expressions(&self) -> (r: bool)
         ensures r == below_has_capture(*self),
     { unimplemented!() }
+
+    // and for matches_empty_string: zls_of(op) IS the answer of the variant's method (each of them is verified to return it)
+    #[verifier::external_body]
+    pub fn matches_empty_string(&self) -> (r: u32)
+        ensures r == zls_of(*self),
+    { unimplemented!() }
 }
